@@ -3,7 +3,7 @@ from __future__ import annotations
 
 import ast
 
-from sa.model import AnalysisError, calls_in
+from sa.model import AnalysisError, calls_in, kwarg
 from sa.paths import function_paths, end_kind, consistent, must_raise
 from sa.util import U, writes_of, Env, call_is
 
@@ -243,6 +243,15 @@ def run(ctx):
             okall = U(fl.iter) == "range(self.ndim)" and any("axis=" + U(fl.target) in t and "inplace=True" in t for t in sts)
     ctx.check(okcopy, "C10.d", "merge_bins:on-a-copy", "histogram = self.copy(); histogram.merge_bins(..., inplace=True); return histogram",
               "the non-in-place branch does not merge a copy with the caller's arguments", mb.where)
+    # both delegating branches hand the caller's amount AND min_frequency on (in place, on the right object / axis)
+    rec = [c for c in calls_in(mb.node) if isinstance(c.func, ast.Attribute) and c.func.attr == "merge_bins"]
+    okfw = len(rec) == 2
+    for c in rec:
+        amt = c.args[0] if c.args else kwarg(c, "amount")
+        okfw = okfw and amt is not None and U(amt) == "amount" and U(kwarg(c, "min_frequency")) == "min_frequency" \
+            and U(kwarg(c, "inplace")) == "True" and kwarg(c, "axis") is not None
+    ctx.check(okfw, "C10.d", "merge_bins:delegation-forwards-options", "amount, min_frequency, axis and inplace=True reach both delegated calls",
+              f"delegated calls: {[U(c)[:90] for c in rec]} - an option of the caller is dropped", mb.where)
     from rules import c12
     c12.check_copy_contents(ctx, "C10.d", m)   # the copy that is merged carries all contents, incl. the missed store
     ctx.check(okall, "C10.d", "merge_bins:all-axes", "axis=None merges every axis in range(self.ndim)", "axis=None does not cover all axes", mb.where)
